@@ -46,6 +46,23 @@ def same_converter(a, b):
     return canon(a) == canon(b)
 
 
+def check_kwargs(loader_fn, data, model, fails, where, loader):
+    """Keyword arguments of every loader reach the constructor (delimiter, strict)."""
+    for d in ("/", "::"):
+        try:
+            c = loader_fn(data, delimiter=d)
+        except Exception as e:  # noqa
+            fails.append((f"{loader}/keyword-arguments-not-accepted", f"{where} delimiter={d!r}: {type(e).__name__}: {e}"))
+            continue
+        m = Model(model.records, d)
+        ok = c.delimiter == d
+        for r in model.records[:2]:
+            if d not in r.prefix:
+                ok = ok and c.expand(r.prefix + d + "1") == m.expand(r.prefix + d + "1") and c.compress(r.uri_prefix + "#7") == m.compress(r.uri_prefix + "#7")
+        if not ok:
+            fails.append((f"{loader}/delimiter-keyword-lost", f"{where}: loaded with delimiter={d!r} but the converter uses {c.delimiter!r}"))
+
+
 def compare_with_model(conv, model, fails, where, loader):
     if record_set(conv) != model.record_set():
         fails.append((f"{loader}/records-differ-from-denotation", f"{where}: records {sorted(map(repr, record_set(conv)))}, denotation {sorted(map(repr, model.record_set()))}"))
@@ -131,6 +148,8 @@ def check_prefix_map(items, ctx=None):
         if first is None:
             first = conv
             file_variants(curies.load_prefix_map, dict(perm), conv, fails, where, "from_prefix_map", ctx)
+            check_kwargs(Converter.from_prefix_map, dict(perm), model, fails, where, "from_prefix_map")
+            check_kwargs(lambda data_, **kw: Converter(curies.upgrade_prefix_map(data_), **kw), dict(perm), model, fails, where, "constructor")
             epm = [{"prefix": p, "uri_prefix": u} for p, u in perm]
             try:
                 c2 = Converter.from_extended_prefix_map(epm)
@@ -150,6 +169,7 @@ def check_prefix_map(items, ctx=None):
                 if ctx is not None:
                     ctx.count("iterable_shapes", len(shapes) + 1)
                 file_variants(curies.load_extended_prefix_map, epm, c2, fails, where, "from_extended_prefix_map", ctx)
+                check_kwargs(Converter.from_extended_prefix_map, epm, model, fails, where, "from_extended_prefix_map")
             except Exception as e:  # noqa
                 fails.append(("from_extended_prefix_map/raises", f"{where}: {type(e).__name__}: {e}"))
         elif not same_converter(conv, first):
@@ -191,12 +211,12 @@ def check_upgrade(items, ctx=None):
     return fails
 
 
-PRIORITY_LISTS = [l for n in (1, 2, 3) for l in it.permutations(U4, n)]
+PRIORITY_LISTS = [l for n in (1, 2, 3) for l in it.permutations(U4, n)] + [("x", "X", "X"), ("y", "xy", "X", "xy")]   # a synonym may repeat
 
 
 def check_priority(items, ctx=None):
     fails = []
-    model = Model([mrec(p, us[0], (), us[1:]) for p, us in items], ":")
+    model = Model([mrec(p, us[0], (), tuple(dict.fromkeys(us[1:]))) for p, us in items], ":")
     if not model.valid():
         return fails
     where = f"from_priority_prefix_map({ {p: list(us) for p, us in items} })"
@@ -215,6 +235,7 @@ def check_priority(items, ctx=None):
         if first is None:
             first = conv
             file_variants(Converter.from_priority_prefix_map, data, conv, fails, where, "from_priority_prefix_map", ctx)
+            check_kwargs(Converter.from_priority_prefix_map, data, model, fails, where, "from_priority_prefix_map")
         if ctx is not None:
             ctx.count("transitions")
             ctx.state(hash(canon(conv)))
@@ -249,6 +270,7 @@ def check_reverse(items, ctx=None):
         if first is None:
             first = conv
             file_variants(Converter.from_reverse_prefix_map, dict(perm), conv, fails, where, "from_reverse_prefix_map", ctx)
+            check_kwargs(Converter.from_reverse_prefix_map, dict(perm), m, fails, where, "from_reverse_prefix_map")
         if ctx is not None:
             ctx.count("transitions")
             ctx.state(hash(canon(conv)))
@@ -308,6 +330,7 @@ def check_jsonld(terms, ctx=None):
         if first is None:
             first = conv
             file_variants(curies.load_jsonld_context, data, conv, fails, where, "from_jsonld", ctx)
+            check_kwargs(Converter.from_jsonld, data, model, fails, where, "from_jsonld")
         if ctx is not None:
             ctx.count("transitions")
             ctx.state(hash(canon(conv)))
@@ -362,14 +385,27 @@ def units(tier, seed):
     for kind in ("prefix_map", "upgrade", "reverse"):
         us.extend({"kind": kind, "part": i, "of": 16, "nkeys": nkeys} for i in range(16))
     us.extend({"kind": "priority", "part": i, "of": 32, "tier": tier} for i in range(32))
+    for kind in ("prefix_map", "upgrade", "reverse", "priority"):
+        us.extend({"kind": kind, "part": i, "of": 4, "nkeys": 4, "tier": tier, "ws": True} for i in range(4))
     us.extend({"kind": "jsonld", "part": i, "of": 32, "tier": tier} for i in range(32))
     us.append({"kind": "rdflib"})
     us.append({"kind": "paths"})
     return us
 
 
+WS_P = ["a", "a ", " a", "a\n"]
+WS_U = ["x", "x ", "\tx", "x\u00a0"]
+
+
 def cases(unit):
     kind = unit["kind"]
+    if unit.get("ws"):   # strings that differ only by leading / trailing whitespace are different strings
+        if kind in ("prefix_map", "upgrade"):
+            return [(kind, g) for g in partial_maps(WS_P, WS_U) if 1 <= len(g) <= 3]
+        if kind == "reverse":
+            return [(kind, g) for g in partial_maps(WS_U, WS_P[:3]) if 1 <= len(g) <= 3]
+        if kind == "priority":
+            return [(kind, [("a", l1), ("a ", l2)]) for l1 in it.permutations(WS_U, 2) for l2 in it.permutations(WS_U, 2)]
     if kind in ("prefix_map", "upgrade"):
         keys = P4[: unit["nkeys"]] if unit["nkeys"] == 4 else ["A", "b", "B"]
         gen = list(partial_maps(P4 if unit["nkeys"] == 4 else P4, U4 if kind == "upgrade" else U4))
